@@ -26,8 +26,9 @@ NAMES = ['a', 'b', 'c']
 
 
 class Gen:
-    def __init__(self, ctx, b, depth, width):
+    def __init__(self, ctx, b, depth, width, inner=None):
         self.ctx, self.b, self.depth, self.width = ctx, b, depth, width
+        self.inner = width if inner is None else inner
         self.n = 0
         self.desc = []
 
@@ -58,9 +59,10 @@ class Gen:
             ctx.assume(z3.And(z3.UGE(c, 0x20), z3.ULT(c, 0x7f)))
             s = SymStr((c,))
             return self.V('Str', s), ('str', s)
+        wmax = self.width if d == 0 and not path else self.inner
         ln = ctx.bv(tag + '_len', 8)
-        ctx.assume(z3.ULE(ln, self.width))
-        n = ctx.concretize_int(ln, list(range(self.width + 1)))
+        ctx.assume(z3.ULE(ln, wmax))
+        n = ctx.concretize_int(ln, list(range(wmax + 1)))
         if kind == 'list':
             items = [self.node(d + 1, path + str(i)) for i in range(n)]
             return self.V('List', VecV([x[0] for x in items])), ('list', [x[1] for x in items])
@@ -221,14 +223,14 @@ def harness(ctx, case):
     b = astb.B(ctx.prog)
     fmt = case['fmt']
     out = {'reached': False, 'asserts': 0, 'violations': []}
-    g = Gen(ctx, b, case['depth'], case['width'])
+    g = Gen(ctx, b, case['depth'], case['width'], case.get('inner'))
     if fmt == 'toml' or case.get('root') == 'tuple':
         # the serialiser needs a table at the top level: a tuple root with generated fields
-        items = [g.node(1, str(i)) for i in range(case['width'])]
+        items = [g.node(0, str(i)) for i in range(case['width'])]
         val = g.V('Tuple', VecV([Agg('tuple', None, (NAMES[i], x[0])) for i, x in enumerate(items)]))
         desc = ('tuple', [(NAMES[i], x[1]) for i, x in enumerate(items)])
     elif fmt == 'yamlmulti':
-        items = [g.node(1, str(i)) for i in range(case['width'])]
+        items = [g.node(0, str(i)) for i in range(case['width'])]
         val = g.V('List', VecV([x[0] for x in items]))
         desc = ('list', [x[1] for x in items])
     else:
@@ -388,7 +390,7 @@ def run(fw):
     quick = fw.tier == 'quick'
     cases = []
     for fmt in ('json', 'yaml', 'toml', 'yamlmulti'):
-        cases.append({'fmt': fmt, 'depth': 1, 'width': 2})
+        cases.append({'fmt': fmt, 'depth': 1, 'width': 2, 'inner': 1 if (quick and fmt in ('toml', 'yamlmulti')) else 2})
         if fmt in ('json', 'yaml'):
             cases.append({'fmt': fmt, 'depth': 0, 'width': 0})
         if not quick:
